@@ -233,6 +233,17 @@ CellOrder(S) ==
 TxOrder(S) ==
   LET sorted == SetToSortSeq(S, LAMBDA a, b : LexLess(Raw[a.s] \o <<0, a.bn, a.ti, a.ioi, a.io>>, Raw[b.s] \o <<0, b.bn, b.ti, b.ioi, b.io>>))
   IN [k \in DOMAIN sorted |-> <<sorted[k].tx, sorted[k].bn, sorted[k].ti, sorted[k].ioi, sorted[k].io>>]
+\* get_transactions with group_by_transaction: the same rows in the same key order, consecutive rows of one transaction
+\* folded into ONE object <<tx, bn, ti, cells>>, cells = the <<io, ioi>> of its rows in key order; a page holds up to `limit`
+\* objects and never cuts a run of rows (service.rs: the scan stops at the first row of another transaction once the page is full)
+RECURSIVE GroupRuns(_, _)
+GroupRuns(s, acc) ==
+  IF s = <<>> THEN acc
+  ELSE LET h == Head(s) IN
+       IF acc # <<>> /\ acc[Len(acc)][1] = h[1]
+       THEN GroupRuns(Tail(s), [acc EXCEPT ![Len(acc)] = <<@[1], @[2], @[3], Append(@[4], <<h[5], h[4]>>)>>])
+       ELSE GroupRuns(Tail(s), Append(acc, <<h[1], h[2], h[3], << <<h[5], h[4]>> >> >>))
+TxGrouped(S) == GroupRuns(TxOrder(S), <<>>)
 QCells(Rx, q) == CellOrder(QCellSet(Rx, q))
 QTxs(Rx, q)   == TxOrder(QTxSet(Rx, q))
 
